@@ -375,7 +375,13 @@ def check_C02(ctx):
     pool = S.pool
     encs = [(r['tid'], r['h']['bytes']) for r in S.run_enc()
             if r['h'] and r['h']['st'] == '0' and not has_unbounded(pool.types[r['tid']])]
-    per = 30 if ctx.quick else 250
+    per = 30 if ctx.quick else 100
+    if not ctx.quick:
+        # keep the thorough tier within memory: at most 30 encodings per type, chosen at random
+        by_t = {}
+        for e in encs:
+            by_t.setdefault(e[0], []).append(e)
+        encs = [e for t in sorted(by_t) for e in ctx.rng.sample(by_t[t], min(30, len(by_t[t])))]
     cases, libcases = [], []
     for tid, hx in encs:
         muts = [m for m in mutations(hx, ctx.rng, per * 3) if m[0] in ('inflate', 'trunc', 'byte', 'widen64', 'del', 'ins', 'inc')]
@@ -386,7 +392,7 @@ def check_C02(ctx):
             for rk in ('inst', 'binst'):
                 cases.append((tid, rk, m, hx, kind, 'hostile T%d %s %s %s' % (tid, rk, m, hx)))
             if 'handle' not in pool.caps[tid]:
-                for rk in ('buf', 'ped', 'bbuf', 'bped'):
+                for rk in ('buf', 'ped', 'bbuf', 'bped', 'bstream'):
                     libcases.append((tid, rk, m, 'decr T%d %s %d %s' % (tid, rk, hexlen(m), m)))
         for _ in range(4 if ctx.quick else 40):
             n = ctx.rng.randint(0, 32)
@@ -491,7 +497,9 @@ def check_C10(ctx):
         if not m.startswith('DRIVER') and not same(f, sx.fields(m), ('st', 'calls', 'log')):
             broken.append({'case': hl, 'hraw': o, 'mraw': m})
     report_broken(ctx, broken, 'fault', 'call sequence and status under fault injection = model (inst wrapper)')
-    return finish_with_proofs(ctx)
+    from props_objs import rpc_sender_faults
+    n_rpc = rpc_sender_faults(ctx)
+    return finish_with_proofs(ctx, {'rpc_sender_fault_cases': n_rpc})
 
 
 # ------------------------------------------------------------------ C11 -----
@@ -690,7 +698,7 @@ def check_C08(ctx):
     pool = get_pool()
     # the version family, and the tables that hold a table in an entry (frames inside frames)
     fam = [i for i, t in enumerate(pool.types) if t[0] == 'tab' and 'handle' not in pool.caps[i] and
-           (t[1] == nopgen.FAMILY_HASH or any(et[0] == 'tab' for _, _, et in t[2]))]
+           True]
     S = CodecStreams(ctx, nvals=(30 if ctx.quick else 300), types=fam)
     rows = [r for r in S.run_enc() if r['h'] and r['h']['st'] == '0']
     items = []
